@@ -372,6 +372,13 @@ def run_defs(rng, obs):
     for p in (0, 1, 2, 3, math.inf):
         ck(R.close(float(md.Lnorm(v, p)), R.lnorm(v, p)), 'Lnorm is (sum |w|^p)^(1/p) (count of non-zeros for p=0, max for p=inf)', p=p, v=v,
            observed=float(md.Lnorm(v, p)), expected=R.lnorm(v, p))
+    # integer-typed weights (python ints / an integer array) of some size and a higher order: the definition is over the reals, whatever the dtype handed in
+    vi = [rng.choice([0, 1, -2, 3, 7]) * rng.choice([1, 100, 1000]) for _ in range(n)]
+    for p in (2, 3, 6, 8):
+        arg = list(vi) if rng.random() < 0.5 else np.array(vi, dtype=int)
+        want_ = R.lnorm([float(t) for t in vi], p)
+        ck(R.close(float(md.Lnorm(arg, p)), want_), 'Lnorm is (sum |w|^p)^(1/p) (count of non-zeros for p=0, max for p=inf)', p=p, v=vi, integer_typed=True,
+           observed=float(md.Lnorm(arg, p)), expected=want_)
     dd = {'chebyshev': math.inf, 'hamming': 0, 'euclidean': 2, 'manhattan': 1}
     for name, p in dd.items():
         got = float(getattr(md, name)(v, u, pair=True))
